@@ -134,6 +134,9 @@ class Picky:
 '''
 
 
+INVOCATIONS = [("project-root", None, []), ("other-directory-with-dir-argument", "started/elsewhere", ["../.."]), ("other-directory-with-file-argument", "elsewhere", ["../test_a.py"])]
+
+
 def bad_test(rng, k, name):
     a, b = rng.randint(0, 50), rng.randint(51, 99)
     s = rng.choice(["text", "a b", "x'y", "ü"])
@@ -234,15 +237,18 @@ def run_shard(args):
         body, _ = program.build(gsites, style="rec", tests=1, header="")
         src = header + "U = []\n" + "\n".join(tests) + "\n" + body.replace("def test_0():", "def test_generated():")
         fargs, stdin = REAL_FLAGS[(args.shard + c) % len(REAL_FLAGS)]
+        # how pytest is started: in the project root, or in another directory with the path of the tests as argument
+        iname, cwd_sub, pathargs = INVOCATIONS[(args.shard // 2 + c) % len(INVOCATIONS)]
+        C["invocation_" + iname] = C.get("invocation_" + iname, 0) + 1
         proj = session.Project({"test_a.py": src})
         try:
-            r = session.run_session(proj, fargs, env={"FORCE_COLOR": "true", "PYTHONPATH": ":".join([common.SRC, str(common.VERIF), str(common.VERIF / "stubs")])} if stdin else {"PYTHONPATH": ":".join([common.SRC, str(common.VERIF), str(common.VERIF / "stubs")])}, stdin=stdin)
+            r = session.run_session(proj, fargs + pathargs, cwd_sub=cwd_sub, env={"FORCE_COLOR": "true", "PYTHONPATH": ":".join([common.SRC, str(common.VERIF), str(common.VERIF / "stubs")])} if stdin else {"PYTHONPATH": ":".join([common.SRC, str(common.VERIF), str(common.VERIF / "stubs")])}, stdin=stdin)
         finally:
             proj.close()
         C["real_sessions"] = C.get("real_sessions", 0) + 1
         out["evaluations"] += 1
-        out["signatures"].add(f"real-session/{'+'.join(sorted(set(picked)))[:80]}/{' '.join(fargs) or 'default'}")
-        wit = {"files": {"test_a.py": src}, "args": fargs, "stdin": stdin.decode() if stdin else None}
+        out["signatures"].add(f"real-session/{'+'.join(sorted(set(picked)))[:80]}/{' '.join(fargs) or 'default'}/{iname}")
+        wit = {"files": {"test_a.py": src}, "args": fargs + pathargs, "cwd_sub": cwd_sub, "stdin": stdin.decode() if stdin else None}
         if r.timeout or not r.audit:
             out["inconclusive"].append(f"real session produced no audit log: exit={r.exit} {r.stderr[-300:]}")
             continue
